@@ -72,8 +72,10 @@ class Module:
 
 
 class Index:
-    def __init__(self, repo: str, overlay: Optional[Dict[str, str]] = None):
+    def __init__(self, repo: str, overlay: Optional[Dict[str, str]] = None,
+                 normalise: bool = True):
         self.repo = repo
+        self.normalise = normalise
         self.overlay = overlay or {}
         self.modules: Dict[str, Module] = {}
         self.funcs: Dict[str, Func] = {}           # fq -> Func
@@ -100,6 +102,7 @@ class Index:
                     continue
                 paths.append((rel, p))
         paths.sort()
+        parsed = []
         for rel, p in paths:
             if rel in self.overlay:
                 src = self.overlay[rel]
@@ -112,6 +115,15 @@ class Index:
                 tree = ast.parse(src, filename=rel)
             except SyntaxError as exc:
                 raise AnalysisError(f'cannot parse {rel}: {exc}')
+            parsed.append((rel, tree, src))
+        # refactoring-normal form relative to the reference snapshot
+        # (identity on the snapshot tree; see normalize.py)
+        self.normalisation: List[str] = []
+        if normalise:
+            from . import normalize
+            self.normalisation = normalize.normalize(
+                {rel: tree for rel, tree, _ in parsed})
+        for rel, tree, src in parsed:
             name = rel[len(PKG) + 1:-3].replace('/', '.')
             if name.endswith('.__init__'):
                 name = name[:-9]
@@ -151,6 +163,7 @@ class Index:
             if keep:
                 self.classes[k] = keep
         dg = hashlib.sha256(base.digest.encode())
+        parsed = []
         for rel, src in sorted(overlay.items()):
             dg.update(rel.encode())
             dg.update(src.encode())
@@ -158,6 +171,16 @@ class Index:
                 tree = ast.parse(src, filename=rel)
             except SyntaxError as exc:
                 raise AnalysisError(f'cannot parse {rel}: {exc}')
+            parsed.append((rel, tree, src))
+        self.normalise = getattr(base, 'normalise', True)
+        self.normalisation = list(getattr(base, 'normalisation', []))
+        if self.normalise:
+            from . import normalize
+            trees = {m.path: m.tree for m in base.modules.values()}
+            trees.update({rel: tree for rel, tree, _ in parsed})
+            self.normalisation += normalize.normalize(
+                trees, only={rel for rel, _t, _s in parsed})
+        for rel, tree, src in parsed:
             name = rel[len(PKG) + 1:-3].replace('/', '.')
             if name.endswith('.__init__'):
                 name = name[:-9]
@@ -322,7 +345,7 @@ class Index:
         m = self.mod_of(node)
         path = m.path if m else (f.path if f else '?')
         fn = f.qual if f else '<module>'
-        return f'{path}:{getattr(node, "lineno", 0)} {fn}'
+        return f'{path}:{int(getattr(node, "lineno", 0) or 0)} {fn}'
 
 
 def norm(node) -> str:
